@@ -150,6 +150,78 @@ impl Check for C14 {
                 }
             });
         }
+
+        // draw_image_at under a non-identity current transform: still "the rectangle filled with
+        // the translated image source" (the source draw_image_at itself builds: Pad, Bilinear)
+        {
+            let (w, h) = (8, 7);
+            let img = image_of(3, 2, &VALS12, 3);
+            let xfs: Vec<Xf> = vec![[1., 0., 0., 1., 0.5, 0.], [1., 0., 0., 1., 0.25, 0.75], [2., 0., 0., 2., 0., 0.], [1.5, 0., 0., 0.75, 0.5, 1.], [0.8660254, 0.5, -0.5, 0.8660254, 3., 0.], [0., 1., -1., 0., 7., 0.], [1., 0.5, 0., 1., 0., 0.]];
+            run.bound("draw_image_at under a transform", format!("draw_image_at at integer positions in [-1,3]x[-1,2] under {} current transforms x 3 modes x 2 alphas vs fill_rect / path fill of the rectangle with the translated Pad+Bilinear image source", xfs.len()));
+            run.par(xfs.len(), |ti, l| {
+                for mode in [BlendMode::SrcOver, BlendMode::Src, BlendMode::Xor] {
+                    for alpha in [1.0f32, 0.5] {
+                        let o = Opts { mode, alpha, aa: true };
+                        for x in -1..=3 {
+                            for y in -1..=2 {
+                                let a = Scene { w, h, dst: Dst::Distinct, ops: vec![Op::SetTransform(xfs[ti]), Op::DrawImageAt(x as f32, y as f32, 3, 2, img.clone(), o)] };
+                                let s = SrcSpec::Image { w: 3, h: 2, data: img.clone(), repeat: false, bilinear: true, xf: [1., 0., 0., 1., -(x as f32), -(y as f32)] };
+                                let b = Scene { w, h, dst: Dst::Distinct, ops: vec![Op::SetTransform(xfs[ti]), Op::FillRect(x as f32, y as f32, 3., 2., s.clone(), o)] };
+                                one(run, 8000 + ti, l, "draw_image_at-vs-fill_rect-under-transform", a.clone(), b, false);
+                                let c = Scene { w, h, dst: Dst::Distinct, ops: vec![Op::SetTransform(xfs[ti]), Op::Fill(PathSpec::rect(x as f32, y as f32, 3., 2.), s, o)] };
+                                one(run, 8000 + ti, l, "draw_image_at-vs-path-fill-under-transform", a, c, false);
+                            }
+                        }
+                    }
+                }
+            });
+        }
+
+        // long strips: spans beyond 1024 / 2048 / 8192 pixels with sources that vary along them
+        {
+            let ramp = vec![Stop { pos: 0.0, color: 0xffff0000 }, Stop { pos: 0.5, color: 0xff00ff00 }, Stop { pos: 1.0, color: 0x400000ff }];
+            run.bound("long strips", "8200x2 and 2x8200: full-length and far-end integer fill_rects with a linear gradient along the strip, a repeating 251-texel image and a solid, x 3 modes x 2 alphas (vs path fill, vs covering clip); draw_image_at of an 8100-texel image".to_string());
+            run.par(2 * 3, |i, l| {
+                let tall = i % 2 == 1;
+                let mode = [BlendMode::SrcOver, BlendMode::Src, BlendMode::DstIn][i / 2];
+                let len = 8200;
+                let (w, h) = if tall { (2, len) } else { (len, 2) };
+                let t = |x: f32, y: f32| if tall { (y, x) } else { (x, y) };
+                let ti = |x: i32, y: i32| if tall { (y, x) } else { (x, y) };
+                let texels: Vec<u32> = (0..251u32).map(|k| 0xff000000 | (k << 16) | ((250 - k) << 8) | ((k * 7) & 0xff)).collect();
+                let (g0, g1) = (t(0., 0.), t(len as f32, 0.));
+                let (iw, ih) = ti(251, 1);
+                let srcs = vec![
+                    SrcSpec::Linear { stops: ramp.clone(), spread: Spr::Pad, p: [g0.0, g0.1, g1.0, g1.1] },
+                    SrcSpec::Image { w: iw, h: ih, data: texels.clone(), repeat: true, bilinear: false, xf: IDENT },
+                    SrcSpec::Solid(0x80002040),
+                ];
+                for alpha in [1.0f32, 0.5] {
+                    let o = Opts { mode, alpha, aa: true };
+                    for src in &srcs {
+                        for (a0, a1) in [(0, len), (3, len - 7), (len - 40, 35), (1020, 1030)] {
+                            let (x, y) = t(a0 as f32, 0.);
+                            let (rw, rh) = t(a1 as f32, 2.);
+                            let fast = Op::FillRect(x, y, rw, rh, src.clone(), o);
+                            let general = Op::Fill(PathSpec::rect(x, y, rw, rh), src.clone(), o);
+                            let a = Scene { w, h, dst: Dst::White, ops: vec![fast.clone()] };
+                            one(run, 9000 + i, l, "fill_rect-vs-path-fill", a.clone(), Scene { w, h, dst: Dst::White, ops: vec![general] }, false);
+                            one(run, 9000 + i, l, "fill_rect-vs-under-covering-clip", a, Scene { w, h, dst: Dst::White, ops: vec![cover_clip(w, h), fast, Op::PopClip] }, false);
+                        }
+                    }
+                    // a long image drawn at an integer position
+                    let (lw, lh) = ti(8100, 1);
+                    let data: Vec<u32> = (0..8100u32).map(|k| texels[(k % 251) as usize]).collect();
+                    let (px, py) = t(50., 1.);
+                    let a = Scene { w, h, dst: Dst::White, ops: vec![Op::DrawImageAt(px, py, lw, lh, data.clone(), o)] };
+                    let s = SrcSpec::Image { w: lw, h: lh, data, repeat: false, bilinear: true, xf: [1., 0., 0., 1., -px, -py] };
+                    let b = Scene { w, h, dst: Dst::White, ops: vec![Op::FillRect(px, py, lw as f32, lh as f32, s.clone(), o)] };
+                    one(run, 9000 + i, l, "draw_image_at-vs-fill_rect", a.clone(), b, false);
+                    let c = Scene { w, h, dst: Dst::White, ops: vec![Op::Fill(PathSpec::rect(px, py, lw as f32, lh as f32), s, o)] };
+                    one(run, 9000 + i, l, "draw_image_at-vs-path-fill", a, c, false);
+                }
+            });
+        }
     }
 
     fn replay(&self, case: &str) -> Result<Option<Violation>, String> {
